@@ -289,7 +289,7 @@ func newPositionIndex(yaml []byte) positionIndex {
 }
 
 func (p positionIndex) pos(line, column int) hcl.Pos {
-	if line < 0 || line >= len(p.lines) {
+	if line < 1 || line > len(p.lines) {
 		return hcl.Pos{Line: line, Column: column}
 	}
 
